@@ -30,12 +30,12 @@ def sh(cmd, cwd, timeout=1800):
 SUITE = "go test -vet=off -count=1 $(go list ./... | grep -v '/out$')"
 
 
-def verify(pid, k, wt):
+def verify(pid, k, wt, store_as=None):
     out = os.path.join(wt, "out")
     diff = os.path.join(out, "mut%s.diff" % k)
     demo = os.path.join(out, "mut%s_demo_test.go" % k)
     note = os.path.join(out, "mut%s.md" % k)
-    name = "%s-m%s" % (pid, k)
+    name = "%s-m%s" % (pid, store_as or k)
     meta = dict(name=name, property=pid, verified=False, steps=[])
     demo_in_tree = os.path.join(wt, "zz_seeded_demo_test.go")
 
@@ -58,14 +58,16 @@ def verify(pid, k, wt):
         if not step("existing suite with change: " + SUITE, rc, txt, True):
             return meta
         shutil.copy(demo, demo_in_tree)
-        rc, txt = sh("go test -vet=off -count=1 -run 'Mut|Demo|mut|demo' . 2>&1 | tail -40", wt)
-        rc2, txt2 = sh("go test -vet=off -count=1 . >/dev/null 2>&1", wt)
+        race = "-race " if pid == "C11" else ""
+        rc, txt = sh("go test %s-vet=off -count=1 -run 'Mut|Demo|mut|demo' . 2>&1 | tail -40" % race, wt)
+        rc2, txt2 = sh("go test %s-vet=off -count=1 . >/dev/null 2>&1" % race, wt)
         if not step("demonstration with change (must fail): go test .", rc2, txt, False):
             return meta
     finally:
         sh("git checkout -- .", wt)
-    rc, txt = sh("go test -vet=off -count=1 . 2>&1 | tail -15", wt)
-    rc2, _ = sh("go test -vet=off -count=1 . >/dev/null 2>&1", wt)
+    race = "-race " if pid == "C11" else ""
+    rc, txt = sh("go test %s-vet=off -count=1 . 2>&1 | tail -15" % race, wt)
+    rc2, _ = sh("go test %s-vet=off -count=1 . >/dev/null 2>&1" % race, wt)
     os.remove(demo_in_tree)
     if not step("demonstration without change (must pass): go test .", rc2, txt, True):
         return meta
@@ -159,7 +161,7 @@ def run(name, tier="quick", pid=None):
 
 def main():
     if sys.argv[1] == "verify":
-        m = verify(sys.argv[2], sys.argv[3], sys.argv[4])
+        m = verify(sys.argv[2], sys.argv[3], sys.argv[4], sys.argv[5] if len(sys.argv) > 5 else None)
         print(m["name"], "verified" if m["verified"] else "REJECTED", [(s["step"][:40], s["as_expected"]) for s in m["steps"] if not s["as_expected"]])
     elif sys.argv[1] == "run":
         run(sys.argv[2], sys.argv[3] if len(sys.argv) > 3 else "quick")
